@@ -65,6 +65,26 @@ claimed = {
          "mergeDefaults is decided for every Backoff value (64-bit integers and all non-NaN doubles); backoffController.next/reset run from SSA through every sequence of K events with a symbolic non-decreasing clock and symbolic MaxElapsedTime, compared with the recurrence b_(k+1)=min(b_k*M, MaxInterval); OnRetry durations are compared with the durations the (stubbed) timer is armed with; a server retry field with symbolic digits becomes b_1 of the next series.",
          "Trusted: as C11; Jitter/Multiplier in the schedule clauses are the listed concrete values (symbolic J/M does not terminate in any available solver: measured in DESIGN §2.5); rng is an arbitrary double in [0,1).",
          "DESIGN.md §5 C12"),
+ "C06": (E1, "bounded symbolic execution of the real joe.go (go/ssa) with interpreted goroutines: every interleaving of visible channel operations of a bounded configuration, environment outcomes symbolic (z3)",
+         "Joe.Subscribe/Publish/Shutdown/start/removeSubscriber/closeSubscribers/tryPut/tryReplay run from their SSA as interpreted threads; a thread parks before every channel send/receive/select/close, the scheduler computes the enabled transitions (buffered operations, rendezvous pairs, closed-channel cases) and the one that fires is a forked choice, so all interleavings of the configuration are covered; every Send/Flush/Put/Replay outcome (ok, error, panic) is a symbolic or forked choice. Monitors decide: no goroutine dies with an unrecovered panic, no MessageWriter call after Subscribe returned, Subscribe's result. The pinned tree's double close (F5) is found in under a second with its exact schedule.",
+         "Trusted: go/ssa, executor semantics, z3; sequential consistency of channel and sync.Once operations (Joe shares no plain variable between goroutines; a write by one interpreted thread to memory another reads is simply executed in interleaving order); the schedule space is explored by forking (one path per interleaving class of visible operations, invisible steps commute), NOT by a single solver query over a symbolic schedule: within each interleaving all environment outcomes and topic matches are symbolic and decided by z3. Counterexamples are confirmed natively by repeating the scenario under the real Go scheduler (stress, up to 20000 runs / 20 s) with the counterexample's environment outcomes." ,
+         "DESIGN.md §5 C06, §3"),
+ "C07": (E1, "as C06: all interleavings of bounded configurations with Shutdown; quiescence analysis (no enabled transition) decides termination and deadlock",
+         "The scheduler runs until no transition is enabled; the harness then asserts that with a Shutdown every goroutine has finished (every Subscribe/Publish returned with an allowed value, exactly one Shutdown returned nil, Joe's goroutine exited), and that without Shutdown nothing but Joe's idle goroutine remains once every subscriber was cancelled. A blocked non-terminated thread at quiescence is a deadlock counterexample with its schedule.",
+         "Trusted: go/ssa, executor semantics, z3; sequential consistency of channel and sync.Once operations (Joe shares no plain variable between goroutines; a write by one interpreted thread to memory another reads is simply executed in interleaving order); the schedule space is explored by forking (one path per interleaving class of visible operations, invisible steps commute), NOT by a single solver query over a symbolic schedule: within each interleaving all environment outcomes and topic matches are symbolic and decided by z3. Counterexamples are confirmed natively by repeating the scenario under the real Go scheduler (stress, up to 20000 runs / 20 s) with the counterexample's environment outcomes.",
+         "DESIGN.md §5 C07, §3"),
+ "C03": (E1, "as C06: all interleavings of bounded configurations; delivery monitor over the Send/Flush/Put log with symbolic topics",
+         "Per (subscriber, message) the monitor decides at-most-once, only-if-topics-intersect (the real topicsIntersect against an independent one, symbolic one-byte topics), Joe's serialisation order, completeness for subscribers registered before acceptance, and Send-then-Flush, over every interleaving of the configuration; a recording contract replayer witnesses the order in which Joe accepted messages and registered subscribers.",
+         "Trusted: go/ssa, executor semantics, z3; sequential consistency of channel and sync.Once operations (Joe shares no plain variable between goroutines; a write by one interpreted thread to memory another reads is simply executed in interleaving order); the schedule space is explored by forking (one path per interleaving class of visible operations, invisible steps commute), NOT by a single solver query over a symbolic schedule: within each interleaving all environment outcomes and topic matches are symbolic and decided by z3. Counterexamples are confirmed natively by repeating the scenario under the real Go scheduler (stress, up to 20000 runs / 20 s) with the counterexample's environment outcomes.",
+         "DESIGN.md §5 C03, §3"),
+ "C17": (E1, "as C06: all interleavings, every Send/Flush may fail, every Put/Replay may return an error or panic",
+         "The delivery obligations of C03 are asserted for every subscriber that has not itself failed while the others' Send/Flush calls and the replayer's Put/Replay calls fail or panic (symbolic / forked outcome per call); plus: exactly the failing subscriber's Subscribe returns its error, a Put error is returned by that Publish while the message is still delivered, a panicking replayer is never used again.",
+         "Trusted: go/ssa, executor semantics, z3; sequential consistency of channel and sync.Once operations (Joe shares no plain variable between goroutines; a write by one interpreted thread to memory another reads is simply executed in interleaving order); the schedule space is explored by forking (one path per interleaving class of visible operations, invisible steps commute), NOT by a single solver query over a symbolic schedule: within each interleaving all environment outcomes and topic matches are symbolic and decided by z3. Counterexamples are confirmed natively by repeating the scenario under the real Go scheduler (stress, up to 20000 runs / 20 s) with the counterexample's environment outcomes.",
+         "DESIGN.md §5 C17, §3"),
+ "C04": (E1, "as C06: all interleavings of a resuming Subscribe with concurrent Publish calls against the replayer contract (assume-guarantee with C08/C09)",
+         "A subscriber presenting no ID, the ID of any message or a never-issued ID races a publisher; the replayer is the contract (Put stamps and returns the ID-carrying copy, Replay delivers the stamped messages after the presented one that match) whose implementation by FiniteReplayer/ValidReplayer is what C08/C09 decide. Over every interleaving the subscriber's Send sequence is exactly the missed messages followed by the live ones, once each, in Put order, each the ID-carrying copy.",
+         "Trusted: go/ssa, executor semantics, z3; sequential consistency of channel and sync.Once operations (Joe shares no plain variable between goroutines; a write by one interpreted thread to memory another reads is simply executed in interleaving order); the schedule space is explored by forking (one path per interleaving class of visible operations, invisible steps commute), NOT by a single solver query over a symbolic schedule: within each interleaving all environment outcomes and topic matches are symbolic and decided by z3. Counterexamples are confirmed natively by repeating the scenario under the real Go scheduler (stress, up to 20000 runs / 20 s) with the counterexample's environment outcomes.",
+         "DESIGN.md §5 C04, §3"),
 }
 pending = "check not built yet (engine work in progress; will be decided with the same SSA->SMT technique or declared not applicable)"
 na_reasons = {}
